@@ -1,6 +1,21 @@
 """Property registry: which contract files (units) decide which property, and the stated remainder."""
 
 PROPS = {
+    'C13': dict(
+        title='Optimised hashing and the transcript sponge equal their specification',
+        design_ref='DESIGN.md section 4 / C13',
+        vspecs=['contracts/C13/poseidon_mds.vspec', 'contracts/C13/hashing.vspec', 'contracts/C04/challenger.vspec'],
+        level_text='Unbounded deductive proof (Verus/Z3) that (i) the frequency-domain MDS multiplication (fft4/ifft4, block1-3, mds_multiply_freq) computes the '
+                   'exact integer circulant product and the Goldilocks mds_layer returns, for ALL 2^64 representations of every state element, the published '
+                   'circ+diag MDS row product mod P with no i64/u128 overflow anywhere; (ii) hash_n_to_m_no_pad / hash_n_to_hash_no_pad / compress are exactly '
+                   'the overwrite-mode sponge over an uninterpreted permutation (chunk boundaries at multiples of RATE, overwrite not add, squeeze from the rate '
+                   'part); (iii) every Challenger method implements the duplex sponge state machine and absorbing a ++ b in one or two calls reaches the same state.',
+        level_note='Trusted: Verus+Z3; the permutation is uninterpreted in (ii)/(iii); gl_core contracts (C14) for from_noncanonical_u96 and +. NOT proved: the '
+                   'identity between the fast partial rounds (FAST_PARTIAL_* matrices) and the textbook rounds (a computer-algebra identity on 12x12 matrices, '
+                   'assumption A-C13-1), round constants, s-box, full/partial round drivers (poseidon.rs) -- listed as remainder. Keccak delegates to an external crate.',
+        remainder=['poseidon.rs: constant_layer, sbox_layer, mds_partial_layer_init/fast, partial_rounds, full_rounds, poseidon (u160 accumulation, reduce_u160)',
+                   'A-C13-1: FAST_PARTIAL_* constants are the sparse factorisation of the MDS matrix', 'Keccak (external crate)', 'AVX2/NEON Poseidon (not compiled here)'],
+    ),
     'C14': dict(
         title='Field arithmetic is exact modular arithmetic on every representation',
         design_ref='DESIGN.md section 4 / C14',
